@@ -29,6 +29,7 @@ fn dispatch(cmd: &str, args: &[&str]) -> String {
         "slice" => slice::run(args),
         "loadseq" => loadseq::run(args),
         "loadseqf" => loadseq::run_file(args),
+        "loadseqm" => loadseq::run_mt(args),
         "loadsrc" => loadseq::run_source(args),
         "nsig" => loadseq::run_nsig(args),
         "wobs" => loadseq::run_wobs(args),
